@@ -1,6 +1,7 @@
 package props
 
 import (
+	"strings"
 	"fmt"
 	"sync"
 )
@@ -64,4 +65,45 @@ func C20FreeRun(g, rounds int) []string {
 		wg.Wait()
 	}
 	return mism
+}
+
+
+// C20FreeRunCold: the very first use of the library in this process is operation number op, by g goroutines at once (each
+// on its own UE); afterwards the same operation is run alone for every UE and the outputs are compared. Lazily built
+// state (a table, a cache of type descriptions) is then built while g callers need it.
+func C20FreeRunCold(g, op int) []string {
+	ops := append(c20ops(), c20long()...)
+	if op >= len(ops) {
+		return nil
+	}
+	o := ops[op]
+	cold := make([]string, g)
+	var wg sync.WaitGroup
+	start := make(chan struct{})
+	for t := 0; t < g; t++ {
+		wg.Add(1)
+		go func(t int) {
+			defer wg.Done()
+			<-start
+			cold[t] = o.run(t)
+		}(t)
+	}
+	close(start)
+	wg.Wait()
+	var mism []string
+	for t := 0; t < g; t++ {
+		if alone := o.run(t); alone != cold[t] {
+			mism = append(mism, fmt.Sprintf("cold pass, %d goroutines all in %s: goroutine %d got %s, alone %s", g, o.name, t, cold[t], alone))
+		}
+	}
+	return mism
+}
+
+// C20OpCount: number of operations the free-running passes know.
+func C20OpCount() int { return len(c20ops()) + len(c20long()) }
+
+// C20IsSequence: operation number op is a two-operation sequence (its parts have cold passes of their own).
+func C20IsSequence(op int) bool {
+	ops := append(c20ops(), c20long()...)
+	return op < len(ops) && strings.Contains(ops[op].name, " ; ")
 }
